@@ -158,6 +158,10 @@ func (g *gen) filler() string {
 			s += "\n\n"
 		}
 	}
+	if g.r.IntN(12) == 0 {
+		// whitespace beyond space/tab/CR/LF: form feed, vertical tab, NEL, NBSP, line separator
+		s += g.pick("\f", "\v", "\u0085", "\u00a0", "\u2028", "\u3000") + g.pick("", "\n", " ")
+	}
 	return s
 }
 
@@ -178,7 +182,7 @@ func (g *gen) input() (string, int) {
 		}
 		if delim == ";" && g.r.IntN(8) == 0 && i < n-1 {
 			// switch delimiter with the DELIMITER command for one statement.
-			d := g.pick("//", "$$", ";;")
+			d := g.pick("//", "$$", ";;", "§", "€", "¶¶", "日")
 			inner := strings.ReplaceAll(g.stmt(), d, " ")
 			b.WriteString("DELIMITER " + d + "\n" + inner + d + "\nDELIMITER ;\n")
 			continue
